@@ -1,7 +1,7 @@
 (** C07 — Iterating and argument-routing modifiers equal their definitions.
     Property theorems only; every proof is [exact lemma]. *)
 From Coq Require Import List ZArith NArith Bool.
-From UV Require Import Model.Node Model.Sig Model.Exec Proofs.Routing Proofs.IterSpec.
+From UV Require Import Model.Node Model.Sig Model.Exec Model.RoutePack Proofs.Routing Proofs.IterSpec.
 From UV Require Import Model.Prims Model.Kernels Proofs.KernelsBase Proofs.KernelsAtoms Proofs.Kernels.
 Import ListNotations.
 
@@ -196,6 +196,30 @@ Section R.
   Proof. exact (iter_exec_runs pknown psem). Qed.
 End R.
 
+(** * fork and bracket with a pack of n functions (transcription Model/RoutePack.v of run_prim.rs;
+      Model/Exec.v carries the 2-function forms only) *)
+(** every function of a fork pack receives the top [sa f] of the [max sa] arguments; the results
+    lie in pack order on what was beneath *)
+Theorem C07_fork_pack_spec : forall (V : Type) (ops : list (RoutePack.fn V)) (args rest : list V) (outs : list (list V)),
+  ops <> [] -> length args = max_args V ops ->
+  Forall2 (fun op o => snd op (firstn (fst op) args) = Some o) ops outs ->
+  fork_pack V false ops (args ++ rest) = Some (concat outs ++ rest).
+Proof. exact fork_pack_spec. Qed.
+(** every function of a bracket pack receives its own consecutive group of arguments *)
+Theorem C07_bracket_pack_spec : forall (V : Type) (ops : list (RoutePack.fn V)) (groups outs : list (list V)) (rest : list V),
+  Forall2 (fun op g => length g = fst op) ops groups ->
+  Forall2 (fun op_g o => snd (fst op_g) (snd op_g) = Some o) (combine ops groups) outs ->
+  bracket_pack V ops (concat groups ++ rest) = Some (concat outs ++ rest).
+Proof. exact bracket_pack_spec. Qed.
+(** the seeded defect in the first function's arguments is outside the law: `⊃(¯|+|×) 3 5` *)
+Theorem C07_fork_pack_mutant_refuted :
+  let ops := [(1%nat, fun a => match a with [x] => Some [Z.opp x] | _ => None end);
+              (2%nat, fun a => match a with [x; y] => Some [(y + x)%Z] | _ => None end);
+              (2%nat, fun a => match a with [x; y] => Some [(y * x)%Z] | _ => None end)] in
+  fork_pack Z false ops [3; 5; 99]%Z = Some [-3; 8; 15; 99]%Z /\
+  fork_pack Z true ops [3; 5; 99]%Z = Some [-5; 8; 15; 99]%Z.
+Proof. exact fork_pack_mutant_refuted. Qed.
+
 (** non-vacuity: premises are met on non-trivial instances, and the two sides are not trivially equal *)
 Example C07_nonvacuous :
   let x := Arr TNum [2; 1; 3]%nat [ENum 1; ENum 2; ENum 3; ENum 4; ENum 5; ENum 6] in
@@ -243,3 +267,6 @@ Print Assumptions C07_below_spec.
 Print Assumptions C07_iter_operand_ext.
 Print Assumptions C07_iter_exec_zero.
 Print Assumptions C07_iter_exec_runs.
+Print Assumptions C07_fork_pack_spec.
+Print Assumptions C07_bracket_pack_spec.
+Print Assumptions C07_fork_pack_mutant_refuted.
